@@ -167,6 +167,9 @@ let parse_op (toks : string list) : op =
   | ["obsall"] -> OpObsAll
   | ["allocmax"] -> OpAllocMax
   | ["dump"] -> OpDump
+  | ["obj"; k] -> OpObj (n k)
+  | ["queryall"] -> OpQueryAll
+  | ["queryall18"] -> OpQueryAll18
   | ["hashelf"; nm] -> OpHashElf (h nm)
   | ["hashgnu"; nm] -> OpHashGnu (h nm)
   | _ -> failwith ("bad op: " ^ String.concat " " toks)
